@@ -504,6 +504,7 @@ type observed struct {
 	Env      []string `json:"env"`
 	Preopens []string `json:"preopens"` // "guest=content-of-id"
 	Name     string   `json:"name"`
+	NamedAs  string   `json:"named_as"` // instance name of a binary whose name section says "named-binary"
 	Stdin    string   `json:"stdin"`
 }
 
@@ -537,6 +538,14 @@ func observe(ctx context.Context, mc wazero.ModuleConfig, withSock bool) (observ
 	ictx := ctx
 	if withSock {
 		ictx = sock.WithConfig(ctx, sock.NewConfig().WithTCPListener("127.0.0.1", 0))
+	}
+	// a binary that carries its own name (name section) first: the configuration decides the
+	// instance name only when WithName was called, and must not remember the binary's name
+	if nm, err := rt.InstantiateModule(ictx, mustCompile(ctx, rt, namedBinary), mc); err != nil {
+		return o, "instantiate binary with a name section: " + err.Error()
+	} else {
+		o.NamedAs = nm.Name()
+		nm.Close(ctx)
 	}
 	p, err := wasiproxy.New(ictx, rt, mc, 1, -1)
 	if err != nil {
@@ -638,7 +647,11 @@ func (tr *tree) useMC(i int, withSock bool) string {
 		}
 		got.Preopens = g
 	}
-	if !eqStrs(got.Args, want.Args) || !eqStrs(got.Env, want.Env) || !eqStrs(got.Preopens, want.Preopens) || got.Name != want.Name {
+	want.NamedAs = "named-binary"
+	if n.mmc.nameSet {
+		want.NamedAs = n.mmc.name
+	}
+	if !eqStrs(got.Args, want.Args) || !eqStrs(got.Env, want.Env) || !eqStrs(got.Preopens, want.Preopens) || got.Name != want.Name || got.NamedAs != want.NamedAs {
 		return fmt.Sprintf("guest instantiated with node %s observes\n  %+v\nbut the derivation chain of that node predicts\n  %+v", tr.describe(i), got, want)
 	}
 	return ""
@@ -692,6 +705,19 @@ func (tr *tree) useSK(i int) string {
 		return fmt.Sprintf("guest instantiated with sock node %s sees %d pre-opened sockets, its derivation chain predicts %d", tr.describe(i), cnt, len(n.msk))
 	}
 	return ""
+}
+
+var namedBinary = func() []byte {
+	m := &wasmenc.Module{ModuleName: "named-binary"}
+	return m.Encode()
+}()
+
+func mustCompile(ctx context.Context, rt wazero.Runtime, b []byte) wazero.CompiledModule {
+	cm, err := rt.CompileModule(ctx, b)
+	if err != nil {
+		panic(err)
+	}
+	return cm
 }
 
 var probeMem = func() []byte {
